@@ -88,6 +88,10 @@ func genFailBody(t *rapid.T) FailCase {
 				st = rapid.SampledFrom(failStatuses).Draw(t, "status")
 				anyFail = true
 			}
+			if st == 0 && rapid.IntRange(0, 14).Draw(t, "unrunnable") == 0 {
+				st = -1 // a line that is not valid shell, in a task that may not have failed at all
+				anyFail = true
+			}
 			ft.Cmds = append(ft.Cmds, st)
 			ft.How = append(ft.How, rapid.SampledFrom([]string{"", "", "ext", "sig", "false"}).Draw(t, "how"))
 			if st != 0 && k < nc-1 && rapid.IntRange(0, 5).Draw(t, "then_unrunnable") == 0 {
